@@ -84,32 +84,8 @@ func c09Renderer(c *run.Ctx, idx uint64) {
 	vm := ref.NewVM(ivg.DefaultViewBox, pal)
 	var written []int
 	var hist []string
-	n := r.Range(2, 10)
-	for k := 0; k < n; k++ {
-		reg := r.Intn(64)
-		var spec rec.ColorSpec
-		switch {
-		case len(written) > 0 && r.Chance(3, 5):
-			// a blend with at least one operand naming a register stored earlier
-			w := written[r.Intn(len(written))]
-			other := byte(r.Intn(256))
-			spec = rec.ColorSpec{Typ: ivg.ColorTypeBlend, T: uint8(r.Pick(r.Intn(256), r.Intn(256), 0, 255, 1, 254, 128)), C0: 0xc0 | byte(w), C1: other}
-			if r.Bool() {
-				spec.C0, spec.C1 = spec.C1, spec.C0
-			}
-			c.Count("blends_on_a_stored_register", 1)
-			if v := vm.CReg[w]; v.R > v.A || v.G > v.A || v.B > v.A {
-				c.Count("blends_on_a_nonpremultiplied_register", 1)
-			}
-		case len(written) > 0 && r.Chance(1, 4):
-			spec = rec.ColorSpec{Typ: ivg.ColorTypeCReg, Idx: uint8(written[r.Intn(len(written))])}
-		case r.Chance(1, 6):
-			spec = rec.ColorSpec{Typ: ivg.ColorTypePaletteIndex, Idx: uint8(r.Intn(64))}
-		case r.Chance(1, 3):
-			spec = rec.ColorSpec{Typ: ivg.ColorTypeRGBA, RGBA: gen.Premul(r)}
-		default:
-			spec = rec.ColorSpec{Typ: ivg.ColorTypeRGBA, RGBA: gen.AnyRGBA(r)}
-		}
+	// store performs one store and the path filled from it, and judges what is painted
+	store := func(reg int, spec rec.ColorSpec) bool {
 		op := rec.Op{K: rec.KSetCReg, Col: spec.Color()}
 		hist = append(hist, fmt.Sprintf("CREG[%d] = %s", reg, spec.String()))
 		detail := func() interface{} {
@@ -125,25 +101,25 @@ func c09Renderer(c *run.Ctx, idx uint64) {
 			z.ClosePathEndPath()
 		})
 		if !ok {
-			return
+			return false
 		}
 		vm.CSel = reg
 		vm.Step(&op)
 		written = append(written, reg)
 		c.Count("stores", 1)
 		want := vm.CReg[reg]
-		c.Eval(run.Hash64(idx, uint64(k)), want != color.RGBA{0, 0, 0, 0xff})
+		c.Eval(run.Hash64(idx, uint64(len(hist))), want != color.RGBA{0, 0, 0, 0xff})
 		switch {
 		case want.R <= want.A && want.G <= want.A && want.B <= want.A && want.A != 0:
 			c.Count("flat_paints_judged", 1)
 			if rz.NDraw != 1 || len(rz.Calls) == 0 {
 				c.Violate("register-value-not-painted", map[string]interface{}{"register": reg, "holds": fmt.Sprint(want), "draws": rz.NDraw, "stores": hist, "palette": fmt.Sprint(pal)})
-				return
+				return false
 			}
 			last := rz.Calls[len(rz.Calls)-1]
 			if last.K != rec.RDraw || last.Paint == nil || last.Paint.Kind != 0 || !last.Paint.UniOK || last.Paint.UniRGBA != want {
 				c.Violate("painted-colour-differs-from-stored-value", map[string]interface{}{"register": reg, "holds": fmt.Sprint(want), "painted": fmt.Sprintf("%+v", last.Paint), "stores": hist, "palette": fmt.Sprint(pal)})
-				return
+				return false
 			}
 		case ref.IsGradientValue(want):
 			c.Count("gradient_values_not_judged_here", 1)
@@ -152,6 +128,69 @@ func c09Renderer(c *run.Ctx, idx uint64) {
 			c.Count("unpaintable_values_stored", 1)
 			if rz.NMut != 0 {
 				c.Violate("activity-for-an-unpaintable-register-value", map[string]interface{}{"register": reg, "holds": fmt.Sprint(want), "stores": hist, "palette": fmt.Sprint(pal)})
+				return false
+			}
+		}
+		return true
+	}
+	direct := func() rec.ColorSpec {
+		if r.Chance(1, 3) {
+			return rec.ColorSpec{Typ: ivg.ColorTypeRGBA, RGBA: gen.Premul(r)}
+		}
+		return rec.ColorSpec{Typ: ivg.ColorTypeRGBA, RGBA: gen.AnyRGBA(r)}
+	}
+	graphics := r.Pick(1, 2)
+	for g := 0; g < graphics; g++ {
+		if g > 0 {
+			// The next graphic on the same Renderer has the same custom palette: the
+			// registers start out as that palette again, whatever the graphic before
+			// stored in them. Its blends name the registers the first one wrote.
+			c.Count("second_graphic_with_the_same_palette", 1)
+			hist = append(hist, "Reset(same palette)")
+			z.Reset(ivg.DefaultViewBox, pal)
+			vm.Reset(ivg.DefaultViewBox, pal)
+		}
+		var lastBlend *rec.ColorSpec
+		lastBlendReg := 0
+		n := r.Range(2, 10)
+		for k := 0; k < n; k++ {
+			reg := r.Intn(64)
+			var spec rec.ColorSpec
+			switch {
+			case lastBlend != nil && r.Chance(1, 5):
+				// an operand register of the previous blend is rewritten, then the
+				// very same blend is stored again: it is resolved again
+				w := int(lastBlend.C0 & 63)
+				if lastBlend.C0 < 0xc0 {
+					w = int(lastBlend.C1 & 63)
+				}
+				c.Count("same_blend_again_after_its_operand_register_changed", 1)
+				if !store(w, direct()) {
+					return
+				}
+				reg, spec = lastBlendReg, *lastBlend
+			case len(written) > 0 && r.Chance(3, 5):
+				// a blend with at least one operand naming a register stored earlier
+				w := written[r.Intn(len(written))]
+				other := byte(r.Intn(256))
+				spec = rec.ColorSpec{Typ: ivg.ColorTypeBlend, T: uint8(r.Pick(r.Intn(256), r.Intn(256), 0, 255, 1, 254, 128)), C0: 0xc0 | byte(w), C1: other}
+				if r.Bool() {
+					spec.C0, spec.C1 = spec.C1, spec.C0
+				}
+				c.Count("blends_on_a_stored_register", 1)
+				if v := vm.CReg[w]; v.R > v.A || v.G > v.A || v.B > v.A {
+					c.Count("blends_on_a_nonpremultiplied_register", 1)
+				}
+				sp := spec
+				lastBlend, lastBlendReg = &sp, reg
+			case len(written) > 0 && r.Chance(1, 4):
+				spec = rec.ColorSpec{Typ: ivg.ColorTypeCReg, Idx: uint8(written[r.Intn(len(written))])}
+			case r.Chance(1, 6):
+				spec = rec.ColorSpec{Typ: ivg.ColorTypePaletteIndex, Idx: uint8(r.Intn(64))}
+			default:
+				spec = direct()
+			}
+			if !store(reg, spec) {
 				return
 			}
 		}
